@@ -1275,8 +1275,148 @@ fn space_stream(cs: &mut Vec<Case>, class: &'static str) {
     }
 }
 
+// ---------------------------------------------------------------------------------------------
+// L. random scripts: "the sequential differential, but with real blocked threads". A seeded random sequence of
+// steps over the whole alphabet - block a waiter of a random kind (confirmed registered, order pinned), let the
+// main actor issue any non-blocking / bounded call (late sends, drains, zero/short timed calls, clones, converts,
+// drops, observers, close), start / re-poll (with changing wakers) / drop a send or receive future, poll the
+// stream - and the complete history must be explainable by the reference channel in exactly that order.
+fn fam_random<T: Payload>(c: &Case, cx: &mut Ctx) -> Outcome {
+    let mut rng = Rng::new(c.seed ^ 0xABCD);
+    let mut sc = Scn::<T>::new(c.cap, c.d & 4 == 4, c.seed);
+    // spare handles so that futures/streams can borrow one and drops do not disconnect by accident
+    sc.mexec(Op::CloneS(rng.chance(1, 2)));
+    sc.mexec(Op::CloneR(rng.chance(1, 2)));
+    let nsteps = 5 + rng.below(10) as usize;
+    let mut live: Vec<usize> = vec![];
+    let mut closed = false;
+    let mut stream_used = false;
+    for _ in 0..nsteps {
+        // reap workers that have returned
+        live.retain(|w| !sc.worker_finished(*w));
+        let r = rng.below(100);
+        if r < 22 && live.len() < 4 && !closed {
+            // a new waiter
+            let recv_side = rng.chance(1, 2);
+            let kinds = if recv_side { wr_kinds() } else { ws_kinds() };
+            let mut k = *rng.pick(&kinds);
+            if rng.chance(1, 5) {
+                k = if recv_side { Op::RecvTimeout(2000) } else { *rng.pick(&[Op::SendTimeout(2000), Op::SendOptTimeout(2000)]) };
+            }
+            if k == Op::StreamNext && stream_used {
+                k = Op::ARecv;
+            }
+            let before = sc.waiters();
+            let w = sc.spawn(if recv_side { Side::R } else { Side::S }, rng.chance(1, 2), vec![k]);
+            // either it returns at once, or it shows up in the wait list
+            let t0 = std::time::Instant::now();
+            let mut n = 0u32;
+            loop {
+                if sc.worker_finished(w) {
+                    break;
+                }
+                if sc.waiters() == before + 1 {
+                    sc.pin_reg(w, 0);
+                    live.push(w);
+                    break;
+                }
+                n += 1;
+                if n < 100 || cfg!(miri) {
+                    std::thread::yield_now();
+                } else {
+                    std::thread::sleep(Duration::from_micros(50));
+                }
+                if !cfg!(miri) && t0.elapsed() > sc.grace {
+                    sc.inconclusive = Some("a spawned operation neither returned nor registered".into());
+                    return sc.finish(cx.lin_budget, &mut cx.obs, &mut cx.samples, &mut cx.lin_states);
+                }
+            }
+        } else if r < 70 {
+            // a bounded call by the main actor
+            let k = rng.below(4) as u8;
+            let ops = [
+                Op::TrySend, Op::TrySendOpt, Op::TrySendRt, Op::TrySendOptRt, Op::TryRecv, Op::TryRecvRt, Op::Drain, Op::TrySend, Op::TryRecv,
+                Op::SendTimeout(0), Op::SendOptTimeout(0), Op::RecvTimeout(0), Op::SendTimeout(300), Op::SendOptTimeout(300), Op::RecvTimeout(300),
+                Op::ASendDrop(k), Op::ARecvDrop(k), Op::Len, Op::IsFull, Op::IsEmpty, Op::SenderCount, Op::ReceiverCount, Op::IsClosed, Op::IsTerminated,
+                Op::IsDisconnectedS, Op::IsDisconnectedR, Op::ConvS, Op::ConvR,
+            ];
+            let op = *rng.pick(&ops);
+            if sc.main.has_for(op) {
+                sc.mexec(op);
+            }
+        } else if r < 78 {
+            // handle traffic (never the last handle of a side: that is what the end of the script does)
+            let op = *rng.pick(&[Op::CloneS(true), Op::CloneS(false), Op::CloneR(true), Op::CloneR(false), Op::DropS, Op::DropR]);
+            let ok = match op {
+                Op::DropS => sc.main.senders.len() > 1,
+                Op::DropR => sc.main.receivers.len() > 1,
+                Op::CloneS(_) => !sc.main.senders.is_empty() && sc.main.senders.len() < 4,
+                Op::CloneR(_) => !sc.main.receivers.is_empty() && sc.main.receivers.len() < 4,
+                _ => true,
+            };
+            if ok {
+                sc.mexec(op);
+            }
+        } else if r < 92 {
+            // a future / the stream owned by the main actor, polled step by step with changing wakers
+            let w = rng.below(3) as usize;
+            match rng.below(6) {
+                0 | 1 => {
+                    if sc.main.has_held_r() {
+                        if rng.chance(1, 3) { sc.main.rfut_drop() } else { let _ = sc.main.rfut_poll(w); }
+                    } else if sc.main.receivers.len() > 1 {
+                        if sc.main.rfut_start(w).is_pending() {
+                            sc.pin_main_reg();
+                        }
+                    }
+                }
+                2 | 3 => {
+                    if sc.main.has_held_s() {
+                        if rng.chance(1, 3) { sc.main.sfut_drop() } else { let _ = sc.main.sfut_poll(w); }
+                    } else if sc.main.senders.len() > 1 {
+                        if sc.main.sfut_start(w).is_pending() {
+                            sc.pin_main_reg();
+                        }
+                    }
+                }
+                _ => {
+                    if stream_used || sc.main.receivers.len() > 1 {
+                        stream_used = true;
+                        let fresh = !sc.main.has_open_stream_wait();
+                        if sc.main.sstream_poll(w).is_pending() && fresh {
+                            sc.pin_main_reg();
+                        }
+                    }
+                }
+            }
+        } else if r < 96 && !closed {
+            sc.mexec(if rng.chance(1, 2) { Op::CloseS } else { Op::CloseR });
+            closed = true;
+        }
+    }
+    if sc.main.has_held_r() {
+        sc.main.rfut_drop();
+    }
+    if sc.main.has_held_s() {
+        sc.main.sfut_drop();
+    }
+    sc.main.sstream_drop();
+    cell(cx, format!("random/{}steps/cap{}/{}", nsteps, kverif::exec::cap_name(sc.cap), T::NAME));
+    sc.finish(cx.lin_budget, &mut cx.obs, &mut cx.samples, &mut cx.lin_states)
+}
+fn space_random(cs: &mut Vec<Case>, class: &'static str) {
+    for cap in [Some(0), Some(1), Some(2), None] {
+        for a in 0..64 {
+            for d in 0..8 {
+                cs.push(Case { fam: "random", class, cap, a, b: 0, c: 0, d, seed: 0 });
+            }
+        }
+    }
+}
+
 fn run_case<T: Payload>(c: &Case, cx: &mut Ctx) -> Outcome {
     match c.fam {
+        "random" => fam_random::<T>(c, cx),
         "stream" => fam_stream::<T>(c, cx),
         "tight" => fam_tight::<T>(c, cx),
         "handoff" => fam_handoff::<T>(c, cx),
@@ -1292,7 +1432,7 @@ fn run_case<T: Payload>(c: &Case, cx: &mut Ctx) -> Outcome {
     }
 }
 
-const FAMILIES: [&str; 11] = ["handoff", "timed", "progress", "futdrop", "wakerace", "frozen", "drain", "fifo", "closedisc", "tight", "stream"];
+const FAMILIES: [&str; 12] = ["handoff", "timed", "progress", "futdrop", "wakerace", "frozen", "drain", "fifo", "closedisc", "tight", "stream", "random"];
 
 fn space(fam: &str, classes: &[&'static str]) -> Vec<Case> {
     let mut v = Vec::new();
@@ -1309,6 +1449,7 @@ fn space(fam: &str, classes: &[&'static str]) -> Vec<Case> {
             "closedisc" => space_closedisc(&mut v, class),
             "tight" => space_tight(&mut v, class),
             "stream" => space_stream(&mut v, class),
+            "random" => space_random(&mut v, class),
             _ => panic!("unknown family {}", fam),
         }
     }
